@@ -142,6 +142,9 @@ HAND = [
     "$.list.groupBy($ mod 2, $, $.noSuchMethod())",
     "$.nested.groupBy($.len(), $, $.len())",
     "$.nested.groupBy($.len(), $.len(), [$[0], $[1].len()])",
+    # the input document under its other names ($1 and `$` are one variable)
+    "$1", "$1.n + 1", "[$1.s, $.s]", "$1.list", "$1 = $", "$1.dict.b + [0]",
+    "$1.n + $.n", "[$1.n]", "{a => $1.n}", "$1.list[0]", "-$1.n", "$1.n > 2",
 ]
 
 
